@@ -56,7 +56,131 @@ function call_of(f) end
 ---@param ... T
 ---@return T
 function first_of(...) end
+
+---@generic A, B
+---@param a A
+---@param b B
+---@return A
+function pick1of2(a, b) end
+
+---@generic A, B
+---@param a A
+---@param b B
+---@return B
+function pick2of2(a, b) end
+
+---@generic A, B, C
+---@param a A
+---@param b B
+---@param c C
+---@return A
+function pick1of3(a, b, c) end
+
+---@generic A, B, C
+---@param a A
+---@param b B
+---@param c C
+---@return B
+function pick2of3(a, b, c) end
+
+---@generic A, B, C
+---@param a A
+---@param b B
+---@param c C
+---@return C
+function pick3of3(a, b, c) end
+
+---@return boolean
+function m_b() end
+
+---@return string, boolean
+function m_sb() end
+
+---@return integer, string, boolean
+function m_isb() end
 "#;
+
+// ------------------------------------------------------------------ argument lists (Lua call semantics)
+//
+// An argument list is not a list of values: a call in the last position contributes all its results, a
+// call elsewhere only its first. Every list of ≤ 3 arguments over {three typed variables, calls returning
+// 1, 2 and 3 values of pairwise different types} is passed to every `pickKofN` template; the declared
+// return is the type of the K-th *value* of the expanded list.
+
+/// (expression, types of the values it yields)
+const SOURCES: &[(&str, &[&str])] = &[
+    ("vi", &["integer"]),
+    ("vs", &["string"]),
+    ("vb", &["boolean"]),
+    ("m_b()", &["boolean"]),
+    ("m_sb()", &["string", "boolean"]),
+    ("m_isb()", &["integer", "string", "boolean"]),
+];
+/// (function, parameters, index of the returned parameter)
+const PICKS: &[(&str, usize, usize)] = &[("pick1of2", 2, 0), ("pick2of2", 2, 1), ("pick1of3", 3, 0), ("pick2of3", 3, 1), ("pick3of3", 3, 2)];
+
+fn arglist_program(pick: usize, args: &[usize]) -> String {
+    format!(
+        "---@param vi integer\n---@param vs string\n---@param vb boolean\nlocal function test(vi, vs, vb)\n    local r = {}({})\nend\n",
+        PICKS[pick].0,
+        args.iter().map(|&a| SOURCES[a].0).collect::<Vec<_>>().join(", ")
+    )
+}
+
+/// the values an argument list yields: all but the last argument are truncated to their first value
+fn expand(args: &[usize]) -> Vec<&'static str> {
+    let mut v = Vec::new();
+    for (i, &a) in args.iter().enumerate() {
+        if i + 1 == args.len() {
+            v.extend(SOURCES[a].1.iter().copied());
+        } else {
+            v.push(SOURCES[a].1[0]);
+        }
+    }
+    v
+}
+
+pub fn eval_arglist(w: &mut W, pick: usize, args: &[usize]) -> V18 {
+    let vals = expand(args);
+    let (_, n, k) = PICKS[pick];
+    if vals.len() < n {
+        return V18::Undecided("fewer values than parameters (the missing ones are nil; not judged)");
+    }
+    let Some(want) = w.ty(vals[k]) else { return V18::Undecided("expected type did not resolve") };
+    let Some((r, _)) = run_program(w, &arglist_program(pick, args)) else { return V18::Undecided("no type for r") };
+    compare(w, &r, &want)
+}
+
+type Least = std::sync::Mutex<Option<((usize, usize, Vec<usize>), Violation)>>;
+
+fn judge_arglist(pick: usize, args: &[usize], st: &mut Stats, least: &Least) {
+    st.eval(args.len() > 1);
+    match with_ws(|w| eval_arglist(w, pick, args)) {
+        Err(_) => {
+            st.undecided += 1;
+            st.outcome("panic (reported under C12)");
+        }
+        Ok(v) => {
+            record(st, &v);
+            if let V18::Wrong { got, want } = v {
+                let call = format!("{}({})", PICKS[pick].0, args.iter().map(|&a| SOURCES[a].0).collect::<Vec<_>>().join(", "));
+                // one witness for the argument-list phase: the shortest list, then the simplest template and sources
+                st.raw_violating_cases += 1;
+                let v = Violation {
+                    signature: "wrong-return".into(),
+                    witness: json!({"call": call, "pick": PICKS[pick].0, "args": args.iter().map(|&a| SOURCES[a].0).collect::<Vec<_>>()}),
+                    detail: format!("`{call}` (the argument list yields {:?}): inferred {got}, expected {want}", expand(args)),
+                };
+                let key = (args.len(), pick, args.to_vec());
+                let mut l = least.lock().unwrap();
+                if l.as_ref().is_none_or(|(k, _)| key < *k) {
+                    *l = Some((key, v));
+                }
+            }
+        }
+    }
+}
+
 
 #[derive(Clone, Copy, Debug, PartialEq, Eq)]
 pub enum Ret {
@@ -247,6 +371,14 @@ fn judge_expr(ti: usize, expr: &str, st: &mut Stats) {
 }
 
 pub fn replay(w: &Value) -> Option<Violation> {
+    if let Some(p) = w["pick"].as_str() {
+        let pick = PICKS.iter().position(|x| x.0 == p)?;
+        let args: Vec<usize> = w["args"].as_array()?.iter().filter_map(|a| SOURCES.iter().position(|s| Some(s.0) == a.as_str())).collect();
+        return match with_ws(move |ws| eval_arglist(ws, pick, &args)) {
+            Ok(V18::Wrong { got, want }) => Some(Violation { signature: "wrong-return".into(), witness: w.clone(), detail: format!("inferred {got}, expected {want}") }),
+            _ => None,
+        };
+    }
     let ti = TPLS.iter().position(|t| Some(t.name) == w["template"].as_str())?;
     let v = if let Some(a) = w["arg_type"].as_str() {
         with_ws(|ws| eval_annotated(ws, ti, a))
@@ -314,11 +446,39 @@ pub fn run(args: &Args) -> ! {
     });
     all.merge(st);
 
+    // argument lists
+    let mut lists: Vec<(usize, Vec<usize>)> = Vec::new();
+    for pick in 0..PICKS.len() {
+        for len in 1..=3usize {
+            for i in 0..SOURCES.len().pow(len as u32) {
+                let mut a = Vec::new();
+                let mut r = i;
+                for _ in 0..len {
+                    a.push(r % SOURCES.len());
+                    r /= SOURCES.len();
+                }
+                lists.push((pick, a));
+            }
+        }
+    }
+    let least: Least = Default::default();
+    let (mut st, ok3) = par_range(lists.len() as u64, args.threads, &dl, |i, st| {
+        let (pick, a) = &lists[i as usize];
+        if i % 97 == 3 {
+            st.sample(|| json!({"program": arglist_program(*pick, a), "values": expand(a)}));
+        }
+        judge_arglist(*pick, a, st, &least);
+    });
+    if let Some((_, v)) = least.into_inner().unwrap() {
+        st.violation(v);
+    }
+    all.merge(st);
+    let ok2 = ok2 && ok3;
     rep.rule = format!(
-        "{} template instances {:?} x every argument type of depth <= {} of the C16 universe ({} types; the argument is a parameter annotated with the template's parameter shape around A) + {} literal/constructor expressions {:?} x the templates that take the argument as is. Oracle: inferred type of `local r = f(arg)` == declared return with T:=A, structurally (unions as sets, aliases transparent), or equal after literal widening while still accepting it. Undecided when A is any/unknown or the argument expression is not inferred as declared.",
+        "{} template instances {:?} x every argument type of depth <= {} of the C16 universe ({} types; the argument is a parameter annotated with the template's parameter shape around A) + {} literal/constructor expressions {:?} x the templates that take the argument as is. Oracle: inferred type of `local r = f(arg)` == declared return with T:=A, structurally (unions as sets, aliases transparent), or equal after literal widening while still accepting it. Undecided when A is any/unknown or the argument expression is not inferred as declared. Argument lists: every list of <= 3 arguments over three typed variables and calls returning 1, 2 and 3 values of pairwise different types, passed to pickKofN (N in 2,3): the result is the type of the K-th value of the list as Lua expands it (a call in the last position contributes all its results, elsewhere its first); lists yielding fewer values than parameters are undecided.",
         TPLS.len(), TPLS.iter().map(|t| t.name).collect::<Vec<_>>(), if thorough { 2 } else { 1 }, n_types, EXPRS.len(), EXPRS
     );
     rep.exhaustive = ok && ok2;
-    rep.bounds = json!({"arg_types": n_types, "templates": TPLS.len(), "expr_args": EXPRS.len(), "completed": ok && ok2, "wall_cap_hit": dl.was_hit()});
+    rep.bounds = json!({"arg_types": n_types, "templates": TPLS.len(), "expr_args": EXPRS.len(), "argument_lists": lists.len(), "completed": ok && ok2, "wall_cap_hit": dl.was_hit()});
     rep.finish(args, all)
 }
